@@ -95,20 +95,21 @@ func (s *Session) SetContextValue(k, v interface{}) {
 func (s *Session) Done() <-chan struct{} { return s.ctx.Done() }
 
 type Opts struct {
-	BlockWise     bool
-	SZX           blockwise.SZX
-	NStart        uint32
-	MaxRetransmit uint32
-	AckTimeout    time.Duration
-	LimitTotal    int64
-	LimitEndpoint int64
-	QueueSize     int
-	FirstMID      int32
-	Handler       client.HandlerFunc
-	Monitor       func() client.InactivityMonitor
-	MaxMsgSize    uint32
-	BWTimeout     time.Duration
-	Process       config.ProcessReceivedMessageFunc[*client.Conn]
+	BlockWise      bool
+	SZX            blockwise.SZX
+	NStart         uint32
+	MaxRetransmit  uint32
+	AckTimeout     time.Duration
+	LimitTotal     int64
+	LimitEndpoint  int64
+	QueueSize      int
+	FirstMID       int32
+	Handler        client.HandlerFunc
+	Monitor        func() client.InactivityMonitor
+	MaxMsgSize     uint32
+	BWTimeout      time.Duration
+	Process        config.ProcessReceivedMessageFunc[*client.Conn]
+	RequestMonitor client.RequestMonitorFunc
 	// DTLS: instead of the in-memory Session use the REAL dtls/server.Session (the session type of
 	// dtls.Dial/Client and of DTLS server conns) over a datagram-preserving in-memory net.Conn
 	DTLS bool
@@ -181,6 +182,9 @@ func New(o Opts) *World {
 	}
 	if o.Monitor != nil {
 		opts = append(opts, client.WithInactivityMonitor(o.Monitor()))
+	}
+	if o.RequestMonitor != nil {
+		opts = append(opts, client.WithRequestMonitor(o.RequestMonitor))
 	}
 	if o.DTLS {
 		w.DSt = &tcpw.Stream{Handshake: func(context.Context) error { return nil }}
